@@ -47,6 +47,9 @@ def main():
         d = os.path.join(SEEDED, sid)
         meta = json.load(open(os.path.join(d, "meta.json")))
         prop = meta["property"]
+        # a change may have been written for one property while the behaviour it breaks is stated by another one
+        # ("check_property", set by hand after triage, with the reason in "check_property_reason")
+        prop = meta.get("check_property", prop)
         scratch = tempfile.mkdtemp(prefix="seeded-", dir="/var/tmp")
         tree = "/repo" if in_repo else os.path.join(scratch, "tree")
         try:
